@@ -4,6 +4,7 @@
   the three layout cases of `finalize_inner`, frame-size extrema.
 -/
 import FlacModel.Model.Metadata
+import FlacModel.Gen.ShapesEnc
 
 namespace Flac
 
